@@ -279,6 +279,24 @@ func parent() {
 		}
 	}
 	lpc.Tasks = len(lpJobs)
+	// fragment bursts (macro-operation histories)
+	burstName := "LpPacket fragment bursts (macro histories)"
+	if want(burstName) {
+		bc := &famCov{}
+		ps.perFamily[burstName] = bc
+		for _, cfg := range []int{1, 4} { // 2 threads: non-local and local face
+			bc.Size += burstSize()
+			for lo := int64(0); lo < burstSize(); lo += 7 {
+				hi := lo + 7
+				if hi > burstSize() {
+					hi = burstSize()
+				}
+				nextID++
+				lpJobs = append(lpJobs, &job{t: task{ID: nextID, Kind: "lpburst", Family: -2, N: cfg, Lo: lo, Hi: hi, Only: -1}, fam: burstName, grpKey: fmt.Sprintf("lpburst/cfg%d", cfg)})
+				bc.Tasks++
+			}
+		}
+	}
 	// order: small families first, the big odometer families last
 	work := map[int]int64{}
 	for fi, f := range d.Families {
@@ -595,7 +613,9 @@ func replay(bin, path string) int {
 	pool := newPool(bin, 1, ps)
 	defer pool.shutdown()
 	var t task
-	if len(rf.Replay.Hist) > 0 {
+	if rf.Replay.Family == -2 {
+		t = task{ID: 11, Kind: "lpburst", Family: -2, N: rf.Replay.Cfg, Lo: rf.Replay.Index, Hi: rf.Replay.Index + 1, Only: -1}
+	} else if len(rf.Replay.Hist) > 0 {
 		t = task{ID: 11, Kind: "lphist", N: rf.Replay.Cfg, Hist: rf.Replay.Hist, Only: -1}
 	} else {
 		t = task{ID: 11, Kind: "enum", Family: rf.Replay.Family, Lo: rf.Replay.Index, Hi: rf.Replay.Index + 1, Only: rf.Replay.EntryI}
